@@ -131,6 +131,63 @@ def peels_update(conds, body=None, target=None):
     return True, "Call matched after peeling Update"
 
 
+def eval_bn254_visitor(ctx, R, vs0):
+    """the statement visitor of the BN254-specific pass, evaluated over operator x declared type x shape of the
+    right-hand side x template name against a two-element table: a report exactly for the instantiation (scalar or
+    array element) of a component whose template name is *in* the table, located at the instantiation."""
+    import itertools
+
+    import passeval
+    from finfun import E, Unsupported
+    from passeval import O, Sink, V
+
+    try:
+        w = passeval.PassWorld([IRF, VMF], BN)
+    except Exception:
+        return False
+    roles = []
+    for i in vs0["sig"]["inputs"]:
+        ty = i["ty"].replace(" ", "")
+        if ty == "&Statement":
+            roles.append("stmt")
+        elif re.fullmatch(r"&(HashSet|BTreeSet)<&(\'\w+)?str>|&\[&(\'\w+)?str\]", ty):
+            roles.append("table")
+        elif ty in ("&mutReportCollection", "&mutVec<Report>"):
+            roles.append("sink")
+        else:
+            return False
+    if sorted(roles) != ["sink", "stmt", "table"]:
+        return False
+    CM = O("component_meta")
+    table = ("L", ("Sign", "Poseidon"))
+    n = 0
+    first_bad = {}
+    for op, ty, shape, name in itertools.product(["AssignLocalOrComponent", "AssignSignal", "AssignConstraintSignal"], ["local", "signal", "component"], ["call", "update", "number"], ["Sign", "Poseidon", "sign", "Sign2", "Poseidon ", "Num2Bits"]):
+        call = V("Expression", "Call", meta=CM, name=name, args=("L", (O("arg0"),)))
+        rhe = call if shape == "call" else (V("Expression", "Update", meta=O("update_meta"), var=O("var"), access=("L", ()), rhe=call) if shape == "update" else V("Expression", "Number", meta=O("num_meta"), value=1))
+        tk = O("type_knowledge", is_local=(ty == "local"), is_signal=(ty == "signal"), is_component=(ty == "component"))
+        stmt = V("Statement", "Substitution", meta=O("var_meta", type_knowledge=tk), var=O("var"), op=E("AssignOp", op), rhe=rhe)
+        sink = Sink()
+        argv = [stmt if r == "stmt" else (sink if r == "sink" else table) for r in roles]
+        try:
+            res = passeval.run(w, vs0, argv)
+        except Unsupported as u:
+            ctx.note("bn254 visit_statement is outside the evaluator's subset (%s): shape obligations apply" % u)
+            return False
+        n += 1
+        want = op == "AssignLocalOrComponent" and ty == "component" and shape in ("call", "update") and name in table[1]
+        got = sink.items
+        ok = res is None and len(got) == (1 if want else 0) and (not want or (isinstance(got[0], tuple) and got[0][0] == "K" and CM in got[0][2]))
+        if not ok:
+            key = "panics" if res is not None else ("missing" if want else "spurious")
+            first_bad.setdefault(key, "op=%s type=%s rhs=%s template=%r: %s" % (op, ty, shape, name, res[1] if res else "pushes %s, expected %d report(s)" % (got, 1 if want else 0)))
+    ctx.floor(R, "statement worlds evaluated (bn254)", n, 150)
+    ctx.check(R, "visit_statement/table/no-panic", "panics" not in first_bad, first_bad.get("panics", "no world makes the visitor panic"), site(BN, vs0))
+    ctx.check(R, "visit_statement/table/every-listed-instantiation-flagged", "missing" not in first_bad, first_bad.get("missing", "a component (scalar or array element) instantiating a listed template is reported at the instantiation"), site(BN, vs0))
+    ctx.check(R, "visit_statement/table/nothing-else-flagged", "spurious" not in first_bad, first_bad.get("spurious", "near-miss names, other operators and declared types are not reported"), site(BN, vs0))
+    return True
+
+
 def rule_table(ctx):
     R = "C11.1"
     ctx.rule(R, "the per-curve template tables read from the source equal the documented table (Circomlib spelling), are empty for BN254, and membership is an exact name test on the instantiated template")
@@ -229,9 +286,11 @@ def rule_table(ctx):
     if vs is None:
         return ctx.missing(R, "visit_statement")
     import alpha
+    decided = eval_bn254_visitor(ctx, R, vs)
     vs, _m = alpha.canon_fields(vs, [], [("stmt", "param", 0), ("problematic_templates", "param", 1), ("reports", "param", 2)])
-    pushes = [n for n in method_calls(vs["body"], "push")]
-    ctx.floor(R, "report-pushes", len(pushes), 1)
+    pushes = [] if decided else [n for n in method_calls(vs["body"], "push")]
+    if not decided:
+        ctx.floor(R, "report-pushes", len(pushes), 1)
     params = [p for p, _ in [(i.get("pat", {}).get("name"), 0) for i in vs["sig"]["inputs"] if not i.get("self")]]
     for p in pushes:
         conds = conditions_to(vs["body"], p)
@@ -459,6 +518,112 @@ def suppression_of(fn, push):
     return conds, [c for c in conds if c[0] == "notall"]
 
 
+IRF = "program_structure/src/intermediate_representation/ir.rs"
+VMF = "program_structure/src/intermediate_representation/value_meta.rs"
+
+
+def eval_nonstrict(ctx, R, vs0, top0, primes):
+    """Decide the statement visitor of the non-strict conversion pass by evaluating it over a finite family of
+    statements (operator x declared type x shape of the right-hand side x template name x arity x known size) and
+    comparing what it pushes with the table of the property.  Returns True when the evaluation decided, False when
+    the function is outside the evaluator's subset (the caller then applies the shape obligations)."""
+    import itertools
+
+    import passeval
+    from finfun import E, NONE, S, Unsupported
+    from passeval import O, Sink, V
+
+    bits = primes.get("Bn254", 0).bit_length()
+    if not bits:
+        return False
+    try:
+        w = passeval.PassWorld([IRF, VMF], NS)
+    except Exception:
+        return False
+    fn = vs0
+    # arguments by the type of the parameter
+    caller_env = param_env(NS, vs0, [top0])
+    roles = []
+    for i in fn["sig"]["inputs"]:
+        ty = i["ty"].replace(" ", "")
+        nm = i["pat"].get("name") if i["pat"]["k"] == "PIdent" else None
+        if ty == "&Statement":
+            roles.append("stmt")
+        elif ty in ("&BigInt", "BigInt", "usize", "&usize"):
+            lin = caller_env(nm) if nm else None
+            if lin is None:
+                return False
+            roles.append(("size", lin))
+        elif ty in ("&mutReportCollection", "&mutVec<Report>"):
+            roles.append("sink")
+        else:
+            return False
+    if roles.count("stmt") != 1 or roles.count("sink") != 1:
+        return False
+    CM, VM_ = O("component_meta"), None
+    ops = ["AssignLocalOrComponent", "AssignSignal", "AssignConstraintSignal"]
+    types = ["local", "signal", "component"]
+    shapes = ["call", "update", "number"]
+    names = ["Num2Bits", "Bits2Num", "Num2Bits_strict", "LessThan"]
+    lens = [0, 1, 2]
+    sizes = [None, 0, bits - 1, bits, bits + 1, 300, "bool"]
+    n = bad = 0
+    builders = {}
+    first_bad = {}
+    unsupported = None
+    for op, ty, shape, name, ln, size in itertools.product(ops, types, shapes, names, lens, sizes):
+        if shape == "number" and (name != names[0] or ln != 1 or size is not None):
+            continue
+        if ln != 1 and size is not None:
+            continue
+        val = NONE if size is None else S("Some", V("ValueReduction", "Boolean", value=True) if size == "bool" else V("ValueReduction", "FieldElement", value=size))
+        args = ("L", tuple(O("arg%d" % j, value=(val if j == 0 else NONE)) for j in range(ln)))
+        call = V("Expression", "Call", meta=CM, name=name, args=args)
+        rhe = call if shape == "call" else (V("Expression", "Update", meta=O("update_meta"), var=O("var"), access=("L", ()), rhe=call) if shape == "update" else V("Expression", "Number", meta=O("num_meta"), value=1))
+        tk = O("type_knowledge", is_local=(ty == "local"), is_signal=(ty == "signal"), is_component=(ty == "component"))
+        stmt = V("Statement", "Substitution", meta=O("var_meta", type_knowledge=tk), var=O("var"), op=E("AssignOp", op), rhe=rhe)
+        sink = Sink()
+        argv = []
+        for r in roles:
+            if r == "stmt":
+                argv.append(stmt)
+            elif r == "sink":
+                argv.append(sink)
+            else:
+                a_, c_ = r[1]
+                argv.append(a_ * bits + c_)
+        try:
+            res = passeval.run(w, fn, argv)
+        except Unsupported as u:
+            unsupported = str(u)
+            break
+        n += 1
+        flagged_name = name in ("Num2Bits", "Bits2Num")
+        safe = isinstance(size, int) and size < bits
+        want = op == "AssignLocalOrComponent" and ty == "component" and shape in ("call", "update") and flagged_name and ln == 1 and not safe
+        got = sink.items
+        ok = res is None and len(got) == (1 if want else 0)
+        if ok and want:
+            g = got[0]
+            ok = isinstance(g, tuple) and g[0] == "K" and CM in g[2]
+            if ok:
+                builders.setdefault(name, set()).add(g[1])
+        if not ok:
+            bad += 1
+            key = "panics" if res is not None else ("missing" if want else "spurious")
+            first_bad.setdefault(key, "op=%s type=%s rhs=%s template=%s(%s args) size=%s: %s" % (op, ty, shape, name, ln, size, res[1] if res else ("pushes %d report(s), expected %d" % (len(got), 1 if want else 0))))
+    if unsupported is not None:
+        ctx.note("nonstrict visit_statement is outside the evaluator's subset (%s): shape obligations apply" % unsupported)
+        return False
+    ctx.floor(R, "statement worlds evaluated (nonstrict)", n, 500)
+    ctx.check(R, "visit_statement/table/no-panic", "panics" not in first_bad, first_bad.get("panics", "no world makes the visitor panic"), site(NS, fn))
+    ctx.check(R, "visit_statement/table/every-unsafe-instantiation-flagged", "missing" not in first_bad, first_bad.get("missing", "Num2Bits / Bits2Num with one argument that is not a known constant < %d is reported, scalar or array element" % bits), site(NS, fn))
+    ctx.check(R, "visit_statement/table/nothing-else-flagged", "spurious" not in first_bad, first_bad.get("spurious", "no report for other templates, arities, operators, declared types or a known size < %d" % bits), site(NS, fn))
+    b1, b2 = builders.get("Num2Bits", set()), builders.get("Bits2Num", set())
+    ctx.check(R, "visit_statement/table/one-report-kind-per-template", len(b1) == 1 and len(b2) == 1 and b1 != b2, "report builders: Num2Bits -> %s, Bits2Num -> %s (each located at the instantiation)" % (sorted(b1), sorted(b2)), site(NS, fn))
+    return True
+
+
 def rule_thresholds(ctx, primes):
     R = "C11.3"
     ctx.rule(R, "Num2Bits/Bits2Num(n) is not flagged iff n is a known constant < 254 and only under BN254; a LessThan input is range-checked iff 2^k-1 <= p/2 (decided for k in 0..300 per curve from the extracted primes)")
@@ -488,9 +653,11 @@ def rule_thresholds(ctx, primes):
             okr = all(("Curve::Bn254" in s) or ("definition_type" in s) for s in cs)
             ctx.check(R, "find_nonstrict_binary_conversion/early-return", okr, "statements are visited only under: %s" % cs, site(NS, v_))
         env = param_env(NS, vs, [top])
-        pushes = list(method_calls(vs["body"], "push"))
-        ctx.floor(R, "nonstrict-pushes", len(pushes), 2)
-        seen = set()
+        decided = eval_nonstrict(ctx, R, vs, top, primes)
+        pushes = [] if decided else list(method_calls(vs["body"], "push"))
+        if not decided:
+            ctx.floor(R, "nonstrict-pushes", len(pushes), 2)
+        seen = set() if not decided else {"Num2Bits", "Bits2Num"}
         for p in pushes:
             builder = render(p["args"][0])
             which = "Num2Bits" if "num2bits" in builder.lower() else ("Bits2Num" if "bits2num" in builder.lower() else builder)
